@@ -246,7 +246,8 @@ def rule_ensure_templates(ctx):
                 "the check evaluates to the reference term (condition, operands, error variant)" if same else
                 "extracted term differs from the reference: %s" % sym.pretty(v, width=200)[:900], construct=v)
         if name == "ensure_placeholder_name_uniqueness":
-            names = [t for t in ev.last_env.get("names", [])]
+            # the seen-set by role: whichever local ends up holding an insert of the placeholder's name
+            names = [t for vals in ev.last_env.values() for t in vals if isinstance(t, tuple) and "insert" in repr(t) and repr(("fieldof", EACH_PH, "name")) in repr(t)]
             ok = any(t[0] == "phi" and "insert" in repr(t) and repr(("fieldof", EACH_PH, "name")) in repr(t) for t in names) or \
                 any("insert" in repr(t) and repr(("fieldof", EACH_PH, "name")) in repr(t) for t in names)
             ctx.add("TPL", "ensure:placeholder-names-recorded", ok, ctx.site(b), "every placeholder name not yet seen is inserted into the seen set", construct=names)
